@@ -39,7 +39,8 @@ CONSTANTS MaxActions,   \* bound on the number of builder actions
           MaxDepth,     \* bound on list nesting
           MaxFields,    \* bound on the number of fields
           Kinds,        \* field kinds enabled in this run (subset of DOMAIN KindTable)
-          Blocks,       \* enabled block actions, subset of {"para","list","lit","doctest","code","section","version","poison"}
+          Blocks,       \* enabled block actions, subset of {"para","list","lit","doctest","code","section","version","poison"};
+                        \* "typed" \in Blocks switches the bodies of type fields to structured type expressions
           Hows,         \* histories by which the object gets the docstring, subset of {"direct", "assigned", "inherited"}
           Forms,        \* ways of writing a field enabled in this run, subset of {"plain", "cbullet", "cdef", "nsee"}
           FreeChoice    \* TRUE: inline style and verbatim template are free choices
@@ -61,8 +62,13 @@ Styles == <<"plain", "bold", "italic", "code", "link", "nest", "uri", "colon">>
 \*   sacomma : w1, w2                                         (comma separated names, no description)
 \*   saname  : w1                                             (bare name without description)
 \*   sacommad: w1, w2 <newline> indented: w3 w4              (comma separated names, then their description)
-StyleWords == [plain |-> 3, bold |-> 3, italic |-> 3, code |-> 2, link |-> 3, nest |-> 3, uri |-> 2, word |-> 1, colon |-> 3,
+StyleWords == [plain |-> 3, bold |-> 3, italic |-> 3, code |-> 2, link |-> 3, nest |-> 3, uri |-> 2, word |-> 1, colon |-> 3, tparam |-> 1, tbare |-> 0,
                sabare |-> 4, sacolon |-> 4, sacomma |-> 2, saname |-> 1, sacommad |-> 4]
+\* STRUCTURED TYPES (enabled by "typed" \in Blocks): the body of a type field is an expression over ONE fixed container
+\* name, which does not resolve to anything documented:   tparam : Seq[w1]     tbare : Seq
+\* Several typed fields of one docstring (and of docstrings rendered with one linker) then name the same head - what is
+\* shown for one of them must not depend on the others.  The expected type text is exactly the expression.
+TypeStyles == IF "typed" \in Blocks THEN {"tparam", "tbare"} ELSE {"word"}
 SeeStyles == {"sabare", "sacolon", "sacomma", "saname", "sacommad"}
 
 \* ------------------------------------------------------------------ verbatim templates
@@ -107,7 +113,7 @@ KindTable ==
   ( "param"      :> KR("param",   {"pa", "pb"},        {"function", "class"}, "") @@
     "arg"        :> KR("param",   {"pb"},              {"function", "class"}, "") @@
     "keyword"    :> KR("param",   {"kx"},              {"function", "class"}, "") @@
-    "type"       :> KR("param",   {"pa", ""},          {"function", "attribute"}, "type") @@
+    "type"       :> KR("param",   {"pa", "pb", ""},    {"function", "attribute"}, "type") @@
     "return"     :> KR("return",  {""},                {"function", "property"}, "return") @@
     "returns"    :> KR("return",  {""},                {"function", "property"}, "return") @@
     "rtype"      :> KR("return",  {""},                {"function"},          "rtype") @@
@@ -272,9 +278,11 @@ InlineChoice(kind, arg, h) ==
     {FALSE} \cup (IF kind \in VarLike /\ h \subseteq {"class", "module"}
                       /\ ~\E i \in 1..Len(doc) : doc[i].t = "field" /\ doc[i].kind = kind /\ doc[i].arg = arg
                    THEN {TRUE} ELSE {})
+\* one type per parameter name, one return / rtype / yield / ytype per docstring
+OnceKey(kind, arg) == IF kind = "type" THEN (IF arg = "pb" THEN "type-pb" ELSE "type") ELSE KindTable[kind].once
 AddField(kind, arg, h, st, form, inl) ==
     /\ nf < MaxFields
-    /\ KindTable[kind].once \notin once
+    /\ OnceKey(kind, arg) \notin once
     /\ (kind = "type" => ((arg = "") <=> (h = {"attribute"})))      \* "@type: T" in an attribute's own docstring
     /\ (form \in {"cbullet", "cdef"} => arg # "")                    \* an entry of a consolidated field names something
     /\ Step(StyleWords[st] + (IF inl THEN 1 ELSE 0))
@@ -283,7 +291,7 @@ AddField(kind, arg, h, st, form, inl) ==
                          ctag |-> IF form = "plain" THEN "" ELSE IF form = "nsee" THEN "See Also" ELSE ConsTag[kind]],
                         [Para(0, st) EXCEPT !.reg = nf + 1] >>
     /\ nf' = nf + 1 /\ lists' = <<>> /\ last' = (IF form = "nsee" THEN "sealed" ELSE "para") /\ hosts' = h
-    /\ once' = IF KindTable[kind].once = "" THEN once ELSE once \cup {KindTable[kind].once}
+    /\ once' = IF OnceKey(kind, arg) = "" THEN once ELSE once \cup {OnceKey(kind, arg)}
     /\ UNCHANGED sect
 
 Next == \/ \E up \in 0..Depth, st \in StyleChoice : AddPara(up, st) \/ AddItem(up, st)
@@ -296,7 +304,7 @@ Next == \/ \E up \in 0..Depth, st \in StyleChoice : AddPara(up, st) \/ AddItem(u
         \/ AddPoison
         \/ \E kind \in Kinds : \E arg \in KindTable[kind].args : \E h \in HostChoice(kind) :
                \E form \in FormsOf(kind) \cap Forms :
-                 \E st \in (IF form = "nsee" THEN SeeStyles ELSE IF kind \in TypeLike THEN {"word"} ELSE StyleChoice) :
+                 \E st \in (IF form = "nsee" THEN SeeStyles ELSE IF kind \in TypeLike THEN TypeStyles ELSE StyleChoice) :
                    \E inl \in InlineChoice(kind, arg, h) : AddField(kind, arg, h, st, form, inl)
 Spec == Init /\ [][Next]_vars
 
